@@ -1,8 +1,8 @@
 package main
 
 import (
-	"encoding/hex"
 	"fmt"
+	"strconv"
 	"strings"
 
 	"github.com/practable/relay/verifharness/lib"
@@ -104,20 +104,20 @@ func checksum61(b []byte) uint64 {
 	return a
 }
 
+// hx emits a byte string for the Corr file: packed seven bytes to a 63-bit integer literal, least
+// significant byte first ([ub] unpacks it)
 func hx(b []byte) string {
-	const chunk = 400
-	if len(b) <= chunk {
-		return `(hx "` + hex.EncodeToString(b) + `")`
-	}
-	parts := []string{}
-	for i := 0; i < len(b); i += chunk {
-		j := i + chunk
-		if j > len(b) {
-			j = len(b)
+	ws := make([]string, 0, len(b)/7+1)
+	for i := 0; i < len(b); i += 7 {
+		var w uint64
+		for j := 6; j >= 0; j-- {
+			if i+j < len(b) {
+				w = w<<8 | uint64(b[i+j])
+			}
 		}
-		parts = append(parts, `hx "`+hex.EncodeToString(b[i:j])+`"`)
+		ws = append(ws, strconv.FormatUint(w, 10))
 	}
-	return "(" + strings.Join(parts, " ++ ") + ")"
+	return "(ub " + strconv.Itoa(len(b)) + "%N [" + strings.Join(ws, ";") + "]%uint63)"
 }
 
 // obsb: small messages travel whole, large ones as length + sparse checksum + both ends
